@@ -1,3 +1,4 @@
+import NTV.Model.Polynomial
 /-! Specification side of C20 (number of roots of unity of a number field `ℚ[x]/(f)`): exact checks
 of the *closed forms* that the harness claims for a field. Import-free. Polynomials are integer
 coefficient lists, low degree first.
@@ -81,5 +82,33 @@ def expected (f : List Int) (kind : String) : Option Nat :=
   | ["imquad"] => imQuadCount f
   | ["given", ns] => ns.toNat?
   | _ => none
+
+end NTV.Spec.Muk
+
+namespace NTV.Spec.Muk
+/-! ### exact number of real roots (Sturm) for the root finder -/
+open NTV.PolyG
+
+def sgn (r : Rat) : Int := if r > 0 then 1 else if r < 0 then -1 else 0
+
+/-- Sturm chain f, f', −rem(f, f'), … (squarefree f) -/
+def sturmChain : Nat → List Rat → List Rat → List (List Rat)
+  | 0, _, _ => []
+  | fuel + 1, a, b =>
+    if b.isEmpty then [a]
+    else a :: sturmChain fuel b (neg (divRemRat a b).2)
+
+def signChanges (l : List Int) : Nat :=
+  let nz := l.filter (· != 0)
+  (nz.zip (nz.drop 1)).foldl (fun c (x, y) => if x != y then c + 1 else c) 0
+
+/-- number of distinct real roots of a squarefree polynomial: V(−∞) − V(+∞) -/
+def realRootCount (f : List Int) : Nat :=
+  let fq : List Rat := f.map (fun (x : Int) => (x : Rat))
+  let dq : List Rat := (differential f).map (fun (x : Int) => (x : Rat))
+  let chain := sturmChain (f.length + 2) fq dq
+  let atPlus := chain.map (fun p => sgn (lc p))
+  let atMinus := chain.map (fun p => if (p.length - 1) % 2 = 0 then sgn (lc p) else - sgn (lc p))
+  signChanges atMinus - signChanges atPlus
 
 end NTV.Spec.Muk
